@@ -162,16 +162,22 @@ def run(ctx):
                     zero_writers.add(inst.path)
         rep.add('LIN-3/sentinel-writer', 'PrefilterState inert sentinel', zero_writers == {is_eff.path}, where=is_eff.loc, cfg=cfg,
                 detail=f"constant-0 stores into PrefilterState fields occur in {sorted(zero_writers)}")
-        # (b) is_effective compares against constants (MIN_SKIPS, MIN_SKIP_BYTES) and can return both values
-        consts = set()
-        for b, i, s in is_eff.stmts():
-            if s['k'] == 'assign' and s['rv']['k'] == 'bin':
-                for o in (s['rv']['a'], s['rv']['b']):
-                    if o['k'] == 'const' and o.get('ck') == 'int':
-                        consts.add(o['v'])
+        # (b) the decision of is_effective is a function of the PrefilterState alone: every branch condition
+        #     derives only from constants and from fields of `self`; and both answers are possible
+        from ..derive import derives
+        bad_roots, n_sw = set(), 0
+        for b in is_eff.rpo():
+            t = is_eff.term(b)
+            if t['k'] == 'switch':
+                n_sw += 1
+                d = derives(P, is_eff, t['op'])
+                for r in d.roots:
+                    if not (r[0] == 'const' or (r[0] == 'arg' and r[1] == 1)):
+                        bad_roots.add(str(r))
         rets = {src[1].get('v') for src in sources(is_eff, 0) if src[0] == 'const'}
-        rep.add('LIN-3/thresholds-constant', is_eff.path, len(consts) >= 2 and rets == {0, 1}, where=is_eff.loc, cfg=cfg,
-                detail=f"compares against constants {sorted(consts)}; returns {sorted(rets)}")
+        rep.add('LIN-3/thresholds-constant', is_eff.path, n_sw >= 2 and not bad_roots and rets == {0, 1}, where=is_eff.loc, cfg=cfg,
+                detail=f"{n_sw} branch conditions, all derived from constants and self" + (f"; foreign inputs {sorted(bad_roots)}" if bad_roots else '')
+                + f"; returns {sorted(rets)}")
         # (c) update() called only from Pre::find, on every path
         callers = set()
         for inst in P.local_instances():
